@@ -161,7 +161,7 @@ def _transpose_sparse_matrix_on_disk_v2(
             data = dst.create_dataset(
                 'data',
                 shape=(indices_size,),
-                chunks=(min(indptr_size, 1000000),),
+                chunks=(min(indices_size, 1000000),),
                 dtype=data_dtype)
 
         chunk_size = 1000000
